@@ -279,6 +279,9 @@ func (s *server) DeleteTable(ctx context.Context, req *btapb.DeleteTableRequest)
 	// the next start.
 	tbl.mu.Lock()
 	tbl.deleted = true
+	// Release the table's row storage (for leveldb: its goroutines, buffers, file handles and lock file). Every
+	// request checks tbl.deleted after it has taken tbl.mu, so nothing touches the rows any more.
+	tbl.rows.Close()
 	tbl.mu.Unlock()
 	// Persistent storage must forget the table too, or it comes back (with its rows) on the next start.
 	if d, ok := s.storage.(interface{ DeleteTableMeta(tbl *btapb.Table) }); ok {
@@ -590,6 +593,9 @@ func (s *server) ReadRows(req *btpb.ReadRowsRequest, stream btpb.Bigtable_ReadRo
 	defer tbl.read()
 	tbl.mu.RLock()
 	defer tbl.mu.RUnlock()
+	if tbl.deleted {
+		return status.Errorf(codes.NotFound, "table %q not found", req.TableName)
+	}
 
 	limit := int(req.RowsLimit)
 	count := 0
@@ -599,9 +605,14 @@ func (s *server) ReadRows(req *btpb.ReadRowsRequest, stream btpb.Bigtable_ReadRo
 	sendResponse := func() error {
 		// Reverse the lock while streaming the row out.
 		tbl.mu.RUnlock()
-		defer tbl.mu.RLock()
 		verifPoint("ReadRows.unlocked", nil)
-		return stream.Send(&btpb.ReadRowsResponse{Chunks: cb.chunks})
+		err := stream.Send(&btpb.ReadRowsResponse{Chunks: cb.chunks})
+		tbl.mu.RLock()
+		if err == nil && tbl.deleted {
+			// the table was deleted (and its storage closed) while the lock was released: end the scan
+			err = status.Errorf(codes.NotFound, "table %q not found", req.TableName)
+		}
+		return err
 	}
 
 	for _, sr := range srs {
@@ -1057,6 +1068,9 @@ func (s *server) MutateRow(ctx context.Context, req *btpb.MutateRowRequest) (*bt
 	verifPoint("MutateRow.beforeLock", req.RowKey)
 	tbl.mu.Lock()
 	defer tbl.mu.Unlock()
+	if tbl.deleted {
+		return nil, status.Errorf(codes.NotFound, "table %q not found", req.TableName)
+	}
 	now := s.clock()
 	r := tbl.getOrCreateRow(req.RowKey)
 	verifPoint("MutateRow.afterRead", req.RowKey)
@@ -1082,6 +1096,9 @@ func (s *server) MutateRows(req *btpb.MutateRowsRequest, stream btpb.Bigtable_Mu
 	verifPoint("MutateRows.beforeLock", nil)
 	tbl.mu.Lock()
 	defer tbl.mu.Unlock()
+	if tbl.deleted {
+		return status.Errorf(codes.NotFound, "table %q not found", req.TableName)
+	}
 	now := s.clock()
 
 	for i, entry := range req.Entries {
@@ -1118,6 +1135,9 @@ func (s *server) CheckAndMutateRow(ctx context.Context, req *btpb.CheckAndMutate
 	verifPoint("CheckAndMutateRow.beforeLock", req.RowKey)
 	tbl.mu.Lock()
 	defer tbl.mu.Unlock()
+	if tbl.deleted {
+		return nil, status.Errorf(codes.NotFound, "table %q not found", req.TableName)
+	}
 	now := s.clock()
 	r := tbl.getOrCreateRow(req.RowKey)
 	verifPoint("CheckAndMutateRow.afterRead", req.RowKey)
@@ -1308,6 +1328,9 @@ func (s *server) ReadModifyWriteRow(ctx context.Context, req *btpb.ReadModifyWri
 	verifPoint("ReadModifyWriteRow.beforeLock", req.RowKey)
 	tbl.mu.Lock()
 	defer tbl.mu.Unlock()
+	if tbl.deleted {
+		return nil, status.Errorf(codes.NotFound, "table %q not found", req.TableName)
+	}
 	now := s.clock()
 	r := tbl.getOrCreateRow(req.RowKey)
 	verifPoint("ReadModifyWriteRow.afterRead", req.RowKey)
@@ -1379,6 +1402,9 @@ func (s *server) SampleRowKeys(req *btpb.SampleRowKeysRequest, stream btpb.Bigta
 
 	tbl.mu.RLock()
 	defer tbl.mu.RUnlock()
+	if tbl.deleted {
+		return status.Errorf(codes.NotFound, "table %q not found", req.TableName)
+	}
 
 	// The return value of SampleRowKeys is very loosely defined. Return at least the
 	// final row key in the table and choose other row keys randomly.
@@ -1527,6 +1553,9 @@ func (t *table) gc(now bigtable.Timestamp, done <-chan struct{}, force bool) {
 
 	t.mu.Lock()
 	defer t.mu.Unlock()
+	if t.deleted {
+		return
+	}
 
 	// Gather GC rules we'll apply.
 	rules := make(map[string]*btapb.GcRule) // keyed by "fam"
@@ -1571,14 +1600,15 @@ func (t *table) gc(now bigtable.Timestamp, done <-chan struct{}, force bool) {
 
 		// Reverse lock; check if we should exit
 		t.mu.Unlock()
-		defer t.mu.Lock()
 		verifPoint("gc.unlocked", r.Key)
+		stop := false
 		select {
 		case <-done:
-			return false // server has been closed
+			stop = true // server has been closed
 		default:
-			return true
 		}
+		t.mu.Lock()
+		return !stop && !t.deleted // a deleted table's storage is closed
 	})
 }
 
